@@ -40,6 +40,7 @@ INVARIANT Emit
 CHECK_DEADLOCK FALSE
 """
 CHUNK = {"ttl": 8, "make": 16, "via": 8, "range": 8, "srow": 1, "s32cmp": 16, "s32add": 4}
+PARTS = {"ttl": ["ttl1", "ttl2", "ttl3", "ttle"], "via": ["via1", "via2", "via3", "viae"], "range": ["range", "rangelong"]}
 STRICT_KINDS = ("make", "range", "srow", "s32add")
 
 
@@ -47,19 +48,20 @@ def show(cs):
     return "".join(chr(c) if 32 < c < 127 else "\\u%04x" % c for c in cs)
 
 
-def explode(tr):
-    """independent events -> one trace per event; a row -> one trace per entry"""
+def explode(tr, entries=False):
+    """independent events -> one trace per event; with entries: a row -> one trace per entry"""
     out = []
     for i, e in enumerate(tr["ev"]):
-        if e.get("op") in ("cmp", "add") and len(e["res"]) > 1:
+        if entries and e.get("op") in ("cmp", "add") and len(e["res"]) > 1:
             for k, x in enumerate(e["res"]):
                 e1 = dict(e, lo=e["lo"] + k, full=False, res=[x])
                 out.append({"tid": "%s/%d.%d" % (tr["tid"], i, k), "kind": tr["kind"], "ev": [e1]})
-            shape = {"op": "rowlen", "operand": "cmp" if e["op"] == "cmp" else e["operand"], "bits": e["bits"], "lo": e["lo"], "n": len(e["res"])}
-            out.append({"tid": "%s/%d.row" % (tr["tid"], i), "kind": tr["kind"], "ev": [shape]})
         else:
             out.append({"tid": "%s/%d" % (tr["tid"], i), "kind": tr["kind"], "ev": [e]})
     return out
+
+
+PINPOINT_ROWS = 12  # rejected serial rows taken apart entry by entry (the others are reported as rows)
 
 
 def via_of(e, clause):
@@ -104,6 +106,19 @@ def describe(e):
     return json.dumps({k: v for k, v in e.items() if k != "full"})[:300]
 
 
+def universe(ctx, kind, tier):
+    """the declared universe of one kind, emitted by TLC part by part"""
+    seen, items = set(), []
+    for part in PARTS.get(kind, [kind]):
+        cfg = ctx.cfg("gen_%s.cfg" % part, GEN_CFG.format(kind=part, **TIERS[tier]))
+        for b in ctx.generate("Gen_TtlRange", cfg, count=False):
+            key = json.dumps(b[0])
+            if key not in seen:
+                seen.add(key)
+                items.append(b[0])
+    return items
+
+
 def run(ctx):
     quick = ctx.tier == "quick"
     ctx.rule = ("cases = every element of the universes declared in TtlRangeUniverse.tla for the tier, emitted by TLC: TTL "
@@ -122,8 +137,7 @@ def run(ctx):
         ctx.model("MC_TtlRange", "MC_TtlRange_%s.cfg" % ctx.tier, workers=1 if quick else 4)
         sizes = {}
         for kind in ("ttl", "make", "via", "range", "srow", "s32cmp", "s32add"):
-            cfg = ctx.cfg("gen_%s.cfg" % kind, GEN_CFG.format(kind=kind, **TIERS[ctx.tier]))
-            items = [b[0] for b in ctx.generate("Gen_TtlRange", cfg, count=False)]
+            items = universe(ctx, kind, ctx.tier)
             sizes[kind] = len(items)
             n = CHUNK[kind]
             for i in range(0, len(items), n):
@@ -156,6 +170,11 @@ def run(ctx):
     final = ctx.validate("Trace_TtlRange", "Trace_TtlRange.cfg", singles, shards=8) if singles else []
     if rejects and not final:
         final = rejects  # cannot happen for independent events; never lose a rejection
+    rows = [r for r in final if r[0]["ev"][0].get("op") in ("cmp", "add") and not r[2].endswith("RowComplete")][:PINPOINT_ROWS]
+    if rows:
+        pinned = ctx.validate("Trace_TtlRange", "Trace_TtlRange.cfg", [s for tr, _, _ in rows for s in explode(tr, True)], shards=8)
+        if pinned:
+            final = [r for r in final if not any(r is x for x in rows)] + pinned
     for tr, line, clause in final:
         e = tr["ev"][line - 1] if line else {}
         item = e.get("text") if "text" in e else [e.get("bits"), e.get("a")] if "bits" in e else [e.get("a"), e.get("b", e.get("n"))]
